@@ -21,7 +21,9 @@ SmallSrcs == {NoSrc, [mode |-> "bp", cols |-> [k \in {"e"} |-> 2], select |-> {"
 E2 == [k \in {"d", "e"} |-> 2]
 SameFileSrcs == {[mode |-> "bp", cols |-> E2, select |-> sel, rename |-> rn] :
                     sel \in {{"*"}, {"e"}},
-                    rn \in {<<>>, [k \in {"e"} |-> "c"], [k \in {"e"} |-> "a"], [k \in {"d"} |-> "c"]}} \cup {NoSrc}
+                    rn \in {<<>>, [k \in {"e"} |-> "c"], [k \in {"e"} |-> "a"], [k \in {"d"} |-> "c"],
+                            [k \in {"d", "e"} |-> IF k = "d" THEN "e" ELSE "d"],        \* a swap: renames are simultaneous
+                            [k \in {"d", "e"} |-> IF k = "d" THEN "e" ELSE "c"]}} \cup {NoSrc}      \* a chain d -> e -> c
 PoolSrc2 == {[mode |-> "bp", ctx |-> c, src |-> s] : c \in {<<>>, [k \in {"b"} |-> 2]}, s \in SameFileSrcs}
 PoolMix == {[mode |-> m, ctx |-> c, src |-> s] : m \in {"bp", "comb"},
                c \in UNION {[S -> {1, 2, 3}] : S \in {{}, {"a"}, {"b"}, {"c"}, {"a", "b"}, {"d"}}}, s \in SmallSrcs}
